@@ -289,6 +289,7 @@ type c16run struct {
 	noted  map[string]bool
 
 	genericPath bool // the pass with AVX2 switched off is running
+	procs       int  // != 0: the pass with runtime.GOMAXPROCS(procs) is running
 }
 
 // a c16task is one unit of (possibly parallel) work with its own deterministic RNG.
@@ -332,6 +333,11 @@ func (t *c16task) violate(key, what string, replay map[string]any, exp, obs stri
 		key += ":generic-path"
 		what = "[AVX2 switched off: portable hashing path] " + what
 		replay["generic_path"] = true
+	}
+	if t.r.procs != 0 {
+		key += ":gomaxprocs"
+		what = fmt.Sprintf("[GOMAXPROCS=%d] ", t.r.procs) + what
+		replay["gomaxprocs"] = t.r.procs
 	}
 	if len(what) > 600 {
 		what = what[:600] + "..."
@@ -546,6 +552,28 @@ func runC16(c *fw.Ctx) {
 		r.res.Count("generic-path-pass")
 	} else {
 		r.res.Note("this CPU has no AVX2: the portable path is the only path exercised")
+	}
+	// roots and proofs must not depend on the degree of parallelism either (sector roots and the cached subtree roots
+	// are computed by worker goroutines): the sector section again under other GOMAXPROCS values, none a power of two
+	{
+		prev := runtime.GOMAXPROCS(0)
+		ps := []int{3, 7}
+		if c.Thorough() {
+			ps = []int{1, 2, 3, 5, 6, 7, 12, 24, 48}
+		}
+		keepOps := len(r.ops)
+		for _, p := range ps {
+			runtime.GOMAXPROCS(p)
+			r.procs = p
+			r.section(fmt.Sprintf("GOMAXPROCS=%d sectors+leaf-range-proofs", p), r.secSectors)
+			r.res.Count("gomaxprocs-pass")
+		}
+		r.procs = 0
+		runtime.GOMAXPROCS(prev)
+		// the model comparison of these sectors has already been queued by the first pass
+		if len(r.ops) > keepOps {
+			r.ops, r.outs, r.cost = r.ops[:keepOps], r.outs[:keepOps], r.cost[:keepOps]
+		}
 	}
 	tGo := time.Since(t0)
 	t1 := time.Now()
